@@ -278,7 +278,13 @@ func (jenny Schema) definitionName(ref ast.RefType) string {
 			break
 		}
 
-		name = tools.UpperCamelCase(ref.ReferredPkg) + name
+		prefixed := tools.UpperCamelCase(ref.ReferredPkg) + name
+		if prefixed == name {
+			// a reference without a package: nothing tells the two objects apart
+			break
+		}
+
+		name = prefixed
 	}
 
 	jenny.definitionOwners[name] = ref.String()
